@@ -53,6 +53,27 @@ LEADERLESS = [
 ]
 
 
+def _twin_block():
+    return [{"k": "function", "doc": 1, "name": "twin_fn", "doctext": ["Twin function.", "", "  indented"], "params": ["t"]},
+            {"k": "close"},
+            {"k": "set", "doc": 1, "name": "TWIN_VAR", "doctext": ["Twin variable.", "  more"], "values": ["v"]},
+            {"k": "option", "doc": 1, "name": "TWIN_OPT", "doctext": ["Twin option.", "  more"], "help": '"h"'},
+            {"k": "generic", "doc": 1, "cmd": "twin_cmd", "args": ["A", '"b c"'], "doctext": ["Twin command.", "  more"]},
+            {"k": "add_test", "doc": 1, "name": "twin_test", "args": ["NAME", "twin_test", "COMMAND", "prog"],
+             "doctext": ["Twin test.", "  more"]}]
+
+
+# the same documented commands verbatim in the two branches of an if()/else() (else is an ordinary command here)
+TWINS = [{"k": "if", "doc": 0}] + _twin_block() + [{"k": "generic", "doc": 0, "cmd": "else", "args": []}] + _twin_block() + [{"k": "close"}]
+
+MULTILINE = [     # a quoted value over several lines, continuation lines indented; the command itself starts indented
+    {"k": "function", "doc": 0, "params": []},
+    {"k": "set", "doc": 1, "values": ['"line one\n      six more\n   three more\n\ttab"'], "doctext": ["A text block."]},
+    {"k": "option", "doc": 1, "help": '"help one\n     five more"', "doctext": ["An option."]},
+    {"k": "generic", "doc": 1, "cmd": "message", "args": ["STATUS", '"msg one\n    four more"'], "doctext": ["A command."]},
+]
+
+
 def page_of(text, raw_newlines=False):
     r = pipeline.document_text(text)
     return r["page"], r["error"]
@@ -97,10 +118,10 @@ def check_module(job):
     base_layout = dict(job[4]) if len(job) > 4 else {}
     _render = cmakegen.render
 
-    def render_with_base(its_, layout=None, gaps=None):
+    def render_with_base(its_, layout=None, gaps=None, over=None):
         lay = dict(base_layout)
         lay.update(layout or {})
-        return _render(its_, lay, gaps)
+        return _render(its_, lay, gaps, over)
     counter = [0]
     evs = cmakegen.close(events)
     its = cmakegen.items(evs)
@@ -122,6 +143,8 @@ def check_module(job):
             cmds = [(nm.lower(), a) for nm, a, _ in reflex.parse(text)]
         except reflex.LexError as ex:
             raise common.HarnessFault(f"layout variant is not valid CMake ({ex}) [{label}]: {text[:300]!r}")
+        if crlf:      # a line break inside a quoted argument is rewritten, too: the argument is compared modulo '\r'
+            cmds = [(nm, [x.replace("\r", "") for x in a]) for nm, a in cmds]
         if cmds != base_cmds:
             raise common.HarnessFault(f"layout variant changes the command sequence [{label}]")
         p, e = page_of(text)
@@ -155,6 +178,20 @@ def check_module(job):
                 render_with_base(its, {"doc_indent": ind, "cmd_indent": ind, "head": ind}))
         for case in ("upper", "mixed"):
             cmp(f"command names in {case} case", render_with_base(cmakegen.items(evs, case)))
+        # one doccomment re-indented / one command name respelled while everything else stays
+        toks_ind = {ind: cmakegen.flat_tokens(its, dict(cmakegen.DEFAULT_LAYOUT, **dict(base_layout, doc_indent=ind)))[0] for ind in ("  ", "\t", "        ")}
+        for i, kd in enumerate(kinds):
+            if kd in ("doc", "moddoc"):
+                for ind, ti in toks_ind.items():
+                    if i == 0:
+                        cmp(f"only doccomment at token {i} re-indented by {ind!r}", render_with_base(its, {"head": ind}, over={i: ti[i]}))
+                    else:
+                        g0 = cmakegen.default_gap(kinds[i - 1], kd, cmakegen.DEFAULT_LAYOUT)
+                        cmp(f"only doccomment at token {i} re-indented by {ind!r}",
+                            render_with_base(its, gaps={i - 1: g0 + ind}, over={i: ti[i]}))
+            elif kd == "id":
+                for sp in {toks[i].upper(), toks[i].lower(), cmakegen.case_of(toks[i].lower(), "mixed")} - {toks[i]}:
+                    cmp(f"only command name at token {i} respelled {sp!r}", render_with_base(its, over={i: sp}))
         cmp("CRLF line endings", render_with_base(its, {"eol": "\r\n"}), crlf=True)
         cmp("arguments continued in column 0", render_with_base(its, {"arg_sep": "\n", "after_open": "\n", "before_close": "\n"}))
         cmp("arguments one per line with trailing comments", render_with_base(
@@ -177,6 +214,30 @@ def check_module(job):
             if viol else None}
 
 
+def check_shadow(job):
+    """the module with every doccomment turned into an ordinary bracket comment of the same shape (so every command
+    keeps its line and column) is documented, then the documented original, then the first again, in one process: a
+    command's position in *another* file is layout, too"""
+    events = job[0]
+    its = cmakegen.items(cmakegen.close(events))
+    plain = [("comment", cmakegen.render_doc(it[1], None).replace("#[[[", "#[[ ", 1)) if it[0] == "doc" and it[2] is None else it
+             for it in its]
+    a, b = cmakegen.render(its), cmakegen.render(plain)
+    if [(n.lower(), x, l) for n, x, l in reflex.parse(a)] != [(n.lower(), x, l) for n, x, l in reflex.parse(b)]:
+        raise common.HarnessFault("shadow module does not keep the commands in place")
+    p1, e1 = page_of(b)
+    pa, ea = page_of(a)
+    p2, e2 = page_of(b)
+    msgs = []
+    if p1 is None or pa is None:
+        msgs.append(f"error: module rejected: {e1 or ea}")
+    elif p1 != p2:
+        msgs.append("differs: the page of a module changes once a sibling with the same layout (its commands documented, at "
+                    "the same lines and columns) has been documented in the same process")
+    return {"viol": msgs, "n": 3, "obs": common.digest([p1, pa]), "nt": common.digest(events), "cls": "differs shadow" if msgs else None,
+            "case": {"shadow": events}}
+
+
 def run(ctx):
     quick = ctx.tier == "quick"
     n_full, n_light = (1, 2) if quick else (2, 3)
@@ -186,6 +247,9 @@ def run(ctx):
     # doccomments written without '#' leaders whose lines carry their own indentation (literal block, directive body)
     jobs += [(LEADERLESS, "full", p, 4, (("leader", False),)) for p in range(4)]
     jobs += [(ALL_INDENTED, "full", p, 4) for p in range(4)]
+    jobs += [(TWINS, "full", p, 16) for p in range(16)]
+    jobs += [(MULTILINE, "full", p, 4, (("cmd_indent", "        "),)) for p in range(4)]
+    jobs += [(MULTILINE, "full", p, 4) for p in range(4)]
     for h in hs:
         if len(h) <= n_full:
             jobs.append((h, "pairs" if (not quick and len(h) <= 1) else "full"))
@@ -194,6 +258,8 @@ def run(ctx):
     ctx.cov["bounds"] = {"fillers": FILL, "light_fillers": LIGHT, "indents": INDENTS, "full_up_to_events": n_full,
                          "light_up_to_events": n_light, "modules": len(jobs)}
     results = ctx.sweep(check_module, jobs, space="modules x layout variants", selftest=5, chunk=4)
+    sh = [(KITCHEN,), (TWINS,), (ALL_INDENTED,), (MULTILINE,)] + [(h,) for h in hs]
+    ctx.sweep(check_shadow, sh, space="same-layout sibling documented in between", selftest=3, chunk=1)
     ctx.cov["distinct_variant_texts"] = sum(r.get("variants", 0) for r in results)
     ctx.assumptions += ["every filler is padded so that the token sequence is preserved by construction",
                         "between a command name and its '(' only spaces/tabs are inserted (CMake requires it)"]
@@ -201,6 +267,8 @@ def run(ctx):
 
 
 def replay(case):
+    if "shadow" in case:
+        return common.in_fork(check_shadow, (case["shadow"],))["viol"]
     base, e0 = page_of(case["default_text"])
     p, e = page_of(case["variant_text"])
     if p is None:
